@@ -32,7 +32,7 @@ import (
 )
 
 const (
-	latencyGuard  = 2 * time.Second  // a pool call must return within this bound (normally microseconds)
+	latencyGuard  = 3 * time.Second  // a pool call must return within this bound (normally microseconds)
 	settleTimeout = 10 * time.Second // waiting for the pool's own goroutines to reach the expected parked state
 )
 
@@ -50,16 +50,17 @@ type sendPeer struct {
 }
 
 type op struct {
-	K     string     `json:"k"` // add bcast byid addtags rmtags rmtagsid streams release readerr closerel send sendstuck
-	Peer  int        `json:"peer,omitempty"`
-	Cap   int        `json:"cap,omitempty"`
-	Tags  []int      `json:"tags,omitempty"`
-	CGate bool       `json:"cgate,omitempty"`
-	Read  bool       `json:"read,omitempty"` // add: use ReadStream instead of AddStream
-	Peers []int      `json:"peers,omitempty"`
-	Sid   int        `json:"sid,omitempty"`
-	Ok    bool       `json:"ok,omitempty"`
-	Send  []sendPeer `json:"send,omitempty"`
+	K      string     `json:"k"` // add bcast byid addtags rmtags rmtagsid streams release readerr closerel send sendstuck
+	Peer   int        `json:"peer,omitempty"`
+	Cap    int        `json:"cap,omitempty"`
+	Tags   []int      `json:"tags,omitempty"`
+	CGate  bool       `json:"cgate,omitempty"`
+	Read   bool       `json:"read,omitempty"`   // add: use ReadStream instead of AddStream
+	Shared bool       `json:"shared,omitempty"` // add: pass a caller-owned tags slice that other adds with the same tags reuse
+	Peers  []int      `json:"peers,omitempty"`
+	Sid    int        `json:"sid,omitempty"`
+	Ok     bool       `json:"ok,omitempty"`
+	Send   []sendPeer `json:"send,omitempty"`
 }
 
 type caseDesc struct {
@@ -204,7 +205,7 @@ type fakePeer struct {
 // directly or buffered would then depend on the scheduler. Wait (bounded) until every idle write loop is parked.
 // Uses only the fakes' own state (no pool lock).
 func (p *fakePeer) Id() string {
-	deadline := time.Now().Add(50 * time.Millisecond)
+	deadline := time.Now().Add(300 * time.Millisecond)
 	for !p.w.writersParked() && time.Now().Before(deadline) {
 		runtime.Gosched()
 	}
@@ -284,6 +285,23 @@ type world struct {
 	seenRemovals int
 	freeWorkers  int
 	fatalHits    *atomic.Int32
+	sharedTags   map[string][]string // caller-owned tag slices (op.Shared)
+}
+
+// tagsFor returns the tags argument of AddStream / ReadStream. With shared=true the caller keeps ONE slice per tag
+// list and passes it to every stream created with that list (pool.AddStream(s, n, tags...) hands over the slice itself).
+func (w *world) tagsFor(tags []int, shared bool) []string {
+	if !shared {
+		return tagStrs(tags)
+	}
+	k := fmt.Sprint(tags)
+	if w.sharedTags == nil {
+		w.sharedTags = map[string][]string{}
+	}
+	if _, ok := w.sharedTags[k]; !ok {
+		w.sharedTags[k] = tagStrs(tags)
+	}
+	return w.sharedTags[k]
 }
 
 func tagStr(t int) string  { return fmt.Sprintf("t%d", t) }
@@ -463,9 +481,12 @@ func (w *world) quiescentOnce() (bool, string) {
 
 func (w *world) settle() (bool, string) {
 	deadline := time.Now().Add(settleTimeout)
-	fallback := time.Now().Add(50 * time.Millisecond)
+	fallback := time.Now().Add(300 * time.Millisecond)
 	why := ""
 	for spins := 0; ; spins++ {
+		if w.fatalHits.Load() > 0 {
+			return true, "" // reported by the caller; the pool lock may be held for ever now
+		}
 		ok, y := w.quiescentOnce()
 		if ok {
 			// confirm once more after yielding: the condition must be stable
@@ -476,7 +497,7 @@ func (w *world) settle() (bool, string) {
 			continue
 		}
 		why = y
-		// the parked-writer probe depends on mb internals: do not insist on it for more than 50ms
+		// the parked-writer probe depends on mb internals: do not insist on it for more than 300ms
 		if strings.HasSuffix(why, "writer not parked yet") && time.Now().After(fallback) {
 			return true, "probe-fallback"
 		}
@@ -524,9 +545,9 @@ func imapTerm(m map[string][]uint32) string {
 	sortedU(keys)
 	items := make([]string, len(keys))
 	for i, k := range keys {
-		items[i] = vlib.Pair(vlib.N(k), vlib.NList(sortedU(by[k])))
+		items[i] = vlib.App("pK", vlib.N(k), nlist(sortedU(by[k])))
 	}
-	return vlib.List(items)
+	return mlist("cK", "nK", items)
 }
 
 func (w *world) snapTerm() string {
@@ -540,7 +561,7 @@ func (w *world) snapTerm() string {
 	w.mu.Unlock()
 	sn, ok := streampool.VerifSnapshotOf(w.pool)
 	if !ok {
-		return "(mkSnap [] [] [])"
+		return "(mkSnap nV nK nK)"
 	}
 	sort.Slice(sn.Streams, func(i, j int) bool { return sn.Streams[i].StreamId < sn.Streams[j].StreamId })
 	items := make([]string, len(sn.Streams))
@@ -553,23 +574,42 @@ func (w *world) snapTerm() string {
 		if s.PeerId != "" {
 			p = num(s.PeerId)
 		}
-		items[i] = vlib.Pair(vlib.N(uint64(s.StreamId)),
-			vlib.App("mkSview", vlib.N(p), vlib.NList(sortedU(tags)), vlib.N(uint64(s.QueueLen)), vlib.N(uint64(caps[s.StreamId]))))
+		items[i] = vlib.App("pV", vlib.N(uint64(s.StreamId)),
+			vlib.App("mkSview", vlib.N(p), nlist(sortedU(tags)), vlib.N(uint64(s.QueueLen)), vlib.N(uint64(caps[s.StreamId]))))
 	}
-	return vlib.App("mkSnap", vlib.List(items), imapTerm(sn.ByPeer), imapTerm(sn.ByTag))
+	return vlib.App("mkSnap", mlist("cV", "nV", items), imapTerm(sn.ByPeer), imapTerm(sn.ByTag))
 }
 
 func (o obsT) term() string {
 	takes := make([]string, len(o.Takes))
 	for i, t := range o.Takes {
-		takes[i] = vlib.Pair(vlib.N(t[0]), vlib.N(t[1]))
+		takes[i] = vlib.App("pP", vlib.N(t[0]), vlib.N(t[1]))
 	}
 	rem := make([]string, len(o.Removed))
 	for i, r := range o.Removed {
-		rem[i] = vlib.Pair(vlib.N(r.Sid), vlib.NList(r.Tags))
+		rem[i] = vlib.App("pK", vlib.N(r.Sid), nlist(r.Tags))
 	}
-	return vlib.App("mkObs", vlib.N(uint64(o.Err)), vlib.NList(o.Ids), vlib.List(takes), vlib.NList(o.Closed),
-		vlib.List(rem), o.Snap, vlib.Bool(o.Timely))
+	return vlib.App("mkObs", vlib.N(uint64(o.Err)), nlist(o.Ids), mlist("cP", "nP", takes), nlist(o.Closed),
+		mlist("cK", "nK", rem), o.Snap, vlib.Bool(o.Timely))
+}
+
+// monomorphic list/pair builders (defined in Run/C19_run.v): elaboration of the case files is several times
+// faster than with the polymorphic [a; b] / (a, b) notations
+func mlist(cons, nilc string, items []string) string {
+	var b strings.Builder
+	for _, it := range items {
+		b.WriteString("(" + cons + " " + it + " ")
+	}
+	b.WriteString(nilc)
+	b.WriteString(strings.Repeat(")", len(items)))
+	return b.String()
+}
+func nlist(v []uint64) string {
+	items := make([]string, len(v))
+	for i, x := range v {
+		items[i] = vlib.N(x)
+	}
+	return mlist("cN", "nN", items)
 }
 
 func nl(v []int) string {
@@ -577,7 +617,7 @@ func nl(v []int) string {
 	for i, x := range v {
 		u[i] = uint64(x)
 	}
-	return vlib.NList(u)
+	return nlist(u)
 }
 
 func (o op) term() string {
@@ -605,17 +645,19 @@ func (o op) term() string {
 	case "send":
 		items := make([]string, len(o.Send))
 		for i, sp := range o.Send {
-			opn := "None"
+			opn := ""
 			if sp.Open != nil {
-				opn = vlib.Some(vlib.Pair(vlib.Pair(vlib.N(uint64(sp.Open.Cap)), nl(sp.Open.Tags)), vlib.Bool(sp.Open.CGate)))
+				opn = vlib.App("sOpen", vlib.N(uint64(sp.Open.Cap)), nl(sp.Open.Tags), vlib.Bool(sp.Open.CGate))
+			} else {
+				opn = "sFail"
 			}
-			items[i] = vlib.Pair(vlib.N(uint64(sp.Peer)), opn)
+			items[i] = vlib.App("pS", vlib.N(uint64(sp.Peer)), opn)
 		}
-		return vlib.App("HSend", vlib.List(items))
+		return vlib.App("HSend", mlist("cS", "nS", items))
 	case "sendstuck":
 		return vlib.App("HSendStuck", vlib.N(uint64(o.Peer)))
 	}
-	return "(HStreams [])"
+	return "(HStreams nN)"
 }
 
 func errClass(err error) int {
@@ -658,13 +700,14 @@ func (r *runner) exec(i int, o op) (obsT, bool) {
 	switch o.K {
 	case "add":
 		f := w.newFake(peerStr(o.Peer), o.CGate, o.Cap)
+		addTags := w.tagsFor(o.Tags, o.Shared)
 		if o.Read {
 			call(func() error {
-				go func() { defer func() { recover() }(); _ = w.pool.ReadStream(f, o.Cap, tagStrs(o.Tags)...) }()
+				go func() { defer func() { recover() }(); _ = w.pool.ReadStream(f, o.Cap, addTags...) }()
 				return nil
 			})
 		} else {
-			call(func() error { return w.pool.AddStream(f, o.Cap, tagStrs(o.Tags)...) })
+			call(func() error { return w.pool.AddStream(f, o.Cap, addTags...) })
 		}
 		if timely && pan == nil {
 			select {
@@ -900,7 +943,7 @@ func runCase(d caseDesc, fatalHits *atomic.Int32) (term string, problems []strin
 		ob, ok := r.exec(i, o)
 		ops = append(ops, o.term())
 		if ob.Snap == "" {
-			ob.Snap = "(mkSnap [] [] [])"
+			ob.Snap = "(mkSnap nV nK nK)"
 		}
 		obs = append(obs, ob.term())
 		if !ok {
@@ -908,7 +951,7 @@ func runCase(d caseDesc, fatalHits *atomic.Int32) (term string, problems []strin
 		}
 	}
 	w.teardown()
-	term = vlib.App("CHist", vlib.N(uint64(d.Workers)), vlib.N(uint64(d.DialCap)), vlib.List(ops), vlib.List(obs))
+	term = vlib.App("CHist", vlib.N(uint64(d.Workers)), vlib.N(uint64(d.DialCap)), mlist("cH", "nH", ops), mlist("cO", "nO", obs))
 	return term, r.problems, r
 }
 
@@ -920,7 +963,11 @@ func main() {
 	spl := logger.NewNamed(streampool.CName)
 	*(spl.Logger) = *zap.New(zapcore.NewNopCore(), zap.WithFatalHook(fatalHook{fatalHits}))
 
-	w := vlib.NewWriter(o.Out, "C19_run", 20)
+	perShard := 20 // parsing the case terms dominates: many small shards in parallel
+	if o.Tier == "thorough" {
+		perShard = 60
+	}
+	w := vlib.NewWriter(o.Out, "C19_run", perShard)
 	var samples []interface{}
 	var maxLat time.Duration
 	fallbacks := 0
@@ -964,8 +1011,27 @@ func main() {
 		}
 	}
 
+	doMq := func(d mqDesc) {
+		progress.Add(1)
+		term, problems := runMqCase(d)
+		idx := w.Add(term, d, keyOf2(d), len(d.Ops) >= 8)
+		for _, p := range problems {
+			w.Violation(idx, "C19-direct", p, nil)
+			w.Stat("direct_violation")
+		}
+		w.Stat("profile_multiqueue")
+		for _, op := range d.Ops {
+			w.Stat("mqop_" + op.K)
+		}
+	}
+
 	if o.Replay != "" {
 		for _, raw := range vlib.ReadReplay(o.Replay) {
+			var m mqDesc
+			if json.Unmarshal(raw, &m) == nil && m.Mq {
+				doMq(m)
+				continue
+			}
 			var d caseDesc
 			if json.Unmarshal(raw, &d) != nil || len(d.Ops) == 0 {
 				continue
@@ -976,24 +1042,42 @@ func main() {
 		return
 	}
 
+	directSeen := func() int { return w.Stats["direct_violation"] }
 	for _, d := range fixedCases() {
+		if directSeen() >= 8 {
+			break // hangs / panics cost seconds each: a handful of witnesses is enough
+		}
 		do(d)
 	}
 	rnd := vlib.NewRand(o.Seed)
-	n := 300
+	n := 250
 	if o.Tier == "thorough" {
-		n = 4000
+		n = 5000
 	}
 	n *= o.Budget
-	for k := 0; k < n; k++ {
+	for k := 0; k < n && directSeen() < 8; k++ {
 		do(genCase(rnd.Fork(uint64(k)), k))
+	}
+	nMq := 100
+	if o.Tier == "thorough" {
+		nMq = 1500
+	}
+	nMq *= o.Budget
+	for k := 0; k < nMq && directSeen() < 8; k++ {
+		doMq(genMqCase(rnd.Fork(uint64(1000000 + k))))
 	}
 	w.Finish("fixed scenarios (blocked/failing/close-gated streams, queue sizes 1..3, duplicate tags) plus random operation "+
 		"sequences of 6..40 operations over <= 6 streams, 3 peers, 3 tags, queue sizes 1..4 (and the default), dial workers 1..2; "+
 		"a case is non-trivial if it has a blocked stream (a MsgSend never released before a later send to it) and at least one "+
-		"send-type operation after it, or a close; distinct by operation list",
+		"send-type operation after it, or a close; distinct by operation list; plus util/multiqueue histories (add / handler release / CloseThread / Close, "+
+		"sizes 1..3, non-trivial from 8 operations)",
 		samples, map[string]interface{}{"max_call_latency_us": maxLat.Microseconds(), "latency_guard_ms": latencyGuard.Milliseconds(),
 			"settle_probe_fallbacks": fallbacks})
+}
+
+func keyOf2(d mqDesc) string {
+	b, _ := json.Marshal(d)
+	return string(b)
 }
 
 func keyOf(d caseDesc) string {
